@@ -19,6 +19,7 @@ Comps == {C("IDENT", "solid"), C("COLOR_VALUE", "red"), C("NUMBER", "0.5"), C("D
           C("UNICODE-RANGE", "u+0-7f"), C("URI", "url(~u/x-1_2.png?a=b&c#f)"),      \* punctuation that is legal in an unquoted URL
           \* function names are case-insensitive also where the value parser special-cases them; calc() as an argument; calc() with
           \* * and / (the renderer writes the white space around them in every way the grammar allows)
+          C("DIMENSION", "-1px"), C("DIMENSION", "+2px"), C("NUMBER", "-0.5"), C("IDENT", "inherit"), C("IDENT", "auto"),
           C("COLOR_VALUE", "rgb(1, 2, 3)"), C("COLOR_VALUE", "hsla(1, 2%, 3%, 0.5)"), C("FUNCTION", "f(calc(1px + 2px))"), C("CALC", "calc(2 * 3px / 4)")}
 Seps == {"sp", ",", "/"}
 Join(a, s, b) == IF s = "sp" THEN a \o b ELSE a \o <<C("op", s)>> \o b
@@ -36,7 +37,10 @@ SomeValues == {<<C("COLOR_VALUE", "red")>>, <<C("DIMENSION", "1px"), C("IDENT", 
 Items == {D(n, v, p) : n \in {"left", "color"}, v \in SomeValues, p \in {"", "important"}} \cup {Cm("/*d*/")}
 Bodies == {<<>>} \cup {<<a>> : a \in Items} \cup (IF MaxDecls >= 2 THEN {<<a, b>> : a \in Items, b \in Items} ELSE {})
              \cup (IF MaxDecls >= 3 THEN {<<a, Cm("/*d*/"), b>> : a \in Items, b \in Items} ELSE {})
-SelTexts == {"a", "*", "#i", ".c", "a.c", "a b", "a > b", "a + b", "a ~ b", "a[b]", "a[b=v]", "a:hover", "a:not(.c)", "a::before", "a:nth-child(2n+1)"}
+SelTexts == {"a", "*", "#i", ".c", "a.c", "a b", "a > b", "a + b", "a ~ b", "a[b]", "a[b=v]", "a:hover", "a:not(.c)", "a::before", "a:nth-child(2n+1)",
+             \* every attribute operator, compound selectors, further pseudo forms
+             "a[b~=v]", "a[b|=v]", "a[b^=v]", "a[b$=v]", "a[b*=v]", "a#i.c", "*.c", "a:first-child", "a::first-line", "a:lang(en)", "a:nth-child(odd)",
+             "a:not([b=v])", "a:not(#i)", "a:not(:hover)"}
 SelLists == {<<s>> : s \in SelTexts} \cup {<<"a", s>> : s \in SelTexts \ {"a"}} \cup {<<".c", "a b", "#i">>}
 NsSelTexts == {"p|a", "*|a", "|a", "p|*", "a:not(p|b)", ":not(*|b)", "a:not(|b)", "[p|b]", "a[p|b=v]", "p|a > .c"}
 OneDecl == <<D("left", <<C("DIMENSION", "1px")>>, "")>>
